@@ -29,7 +29,7 @@ from .core import BadSpec
 # strategies
 # ---------------------------------------------------------------------------
 _small = st.integers(0, 30)
-ORD = ["nop", "nop2", "nop3", "xor", "push", "pop", "mark", "lea", "load"]
+ORD = ["nop", "nop2", "nop3", "xor", "push", "pop", "mark", "lea", "load", "cmpm"]
 TERM = ["jmp", "jmp32", "je", "je", "call", "call", "call", "ijmp", "icall", "ret", "ret"]
 
 
